@@ -415,6 +415,34 @@ func modeSignature(ti *terminfo.Terminfo) string {
 		ti.SetWindowTitle, ti.CursorDefault, ti.CursorColorReset, ti.ResetFgBg, ti.AttrOff, b(ti.Clear))
 }
 
+// resumeBeforeInit: Resume on a screen that was never initialized has nothing to resume: it is
+// refused and leaves the terminal alone (no Start, no write).
+func resumeBeforeInit(e common.Entry) {
+	w.R.Evaluations++
+	w.AddDistinct(1)
+	term := vt.New(4, 2, nil, vt.Quirks{})
+	tty := common.NewFakeTty(term, 4, 2)
+	c := *e.Ti
+	sc, err := tcell.NewTerminfoScreenFromTtyTerminfo(tty, &c)
+	if err != nil {
+		return
+	}
+	var perr interface{}
+	var rerr error
+	func() {
+		defer func() { perr = recover() }()
+		rerr = sc.Resume()
+	}()
+	log := tty.LogCopy()
+	if perr != nil || rerr == nil || len(log) != 0 {
+		var calls []string
+		for _, l := range log {
+			calls = append(calls, l.String())
+		}
+		w.Violation("resume-before-init", fmt.Sprintf("%s: Resume() on a screen that was never initialized returned %v (panic %v) and made the Tty calls %v; it must be refused without touching the terminal", e.Name, rerr, perr, calls), nil)
+	}
+}
+
 func main() {
 	w = hc.Start("C04")
 	w.R.Rule = "explicit-state search to closure (frontier empty; depth cap 7 quick / 9 thorough) over EnableMouse (5 flag sets)/DisableMouse, Enable/DisablePaste, Enable/DisableFocus, SetCursorStyle (2 shapes x none/red/reset), SetTitle, Show/HideCursor, draw+Show, Suspend, Resume, Fini on the real screen; states merged on equal private screen state + reference terminal registers + application-state model; at every Suspend and Fini the terminal's registers must be back to the pre-engage state (main screen, cursor visible/default shape/default colour, SGR default, G0 ASCII, keypad and all DEC private modes off, auto-margin on, title stack balanced and saved title restored) and the Tty call log must satisfy the contract (Drain and callback unregistration before Stop, no Read after Stop, Close exactly once and only at Fini); at every Resume exactly the modes the application enabled are on again. Configurations: one entry per mode-signature class of the 45 ECMA-48-family entries (thorough: every entry) x TCELL_ALTSCREEN unset/disable. distinct_nontrivial = distinct reachable states"
@@ -441,6 +469,13 @@ func main() {
 	}
 	w.R.Scenarios["mode_signature_classes"] = len(seen)
 	w.R.Scenarios["configurations"] = len(cfgs)
+	if *hc.Shard == 0 && *hc.Replay == "" {
+		for _, e := range entries {
+			if e.Name == "xterm-256color" || e.Name == "vt100" {
+				resumeBeforeInit(e)
+			}
+		}
+	}
 	if *hc.Replay != "" {
 		var rp struct {
 			Config string
